@@ -127,3 +127,41 @@ package netconf
 //@   flows [C03] #self-closing-setting-goes-to-its-parameter d.ForceSelfClosingTags only to serialize#1.forceSelfClosingTags
 //@   flows [C03] #header-setting-goes-to-its-parameter d.ExcludeHeader only to serialize#1.excludeHeader
 //@   flows [C03] #version-goes-to-its-parameter d.SelectedVersion only to serialize#1.v, NewNetconfResponse#1.version
+
+// ---- C05 / C19: every RPC is sent with operation options built by NewOperation from the caller's options ------------------
+// (so the timer of sendRPC is the connection-wide timeout unless an option says otherwise; a zero-valued options struct
+// would mean "maximum")
+//@ func NewOperation [C19 C05]
+//@   modifies alloc(), optlog
+//@   ensures #fresh result.1 == nil ==> fresh(result.0)
+//@   ensures #nil-on-error result.1 != nil ==> result.0 == nil
+//@   ensures #error-is-not-ignored-sentinel result.1 != nil ==> !isErr(result.1, util.ErrIgnoredOption)
+//@   ensures #every-option-applied-in-order result.1 == nil ==> optlog == old(optlog) ++ applied(options, box("*netconf.OperationOptions", result.0), len(options))
+//@   loop 1 invariant -1 <= rangeindex && rangeindex < len(options) && isnew(o) && o != nil
+//@   loop 1 invariant optlog == old(optlog) ++ applied(options, box("*netconf.OperationOptions", o), rangeindex + 1)
+//@   ensures #defaults result.1 == nil && len(options) == 0 ==> result.0.Timeout == -1 && result.0.FilterType == "subtree"
+//@   loop 1 invariant rangeindex == -1 ==> o.Timeout == -1 && o.FilterType == "subtree"
+//@ func (*Driver).Discard [C05]
+//@   at call! sendRPC#1 assert #sent-with-the-default-operation-options-so-the-connection-wide-timeout-applies arg1 != nil && arg1.Timeout == -1
+//@ func (*Driver).CopyConfig [C05]
+//@   at call! sendRPC#1 assert #sent-with-the-default-operation-options-so-the-connection-wide-timeout-applies arg1 != nil && arg1.Timeout == -1
+//@ func (*Driver).DeleteConfig [C05]
+//@   at call! sendRPC#1 assert #sent-with-the-default-operation-options-so-the-connection-wide-timeout-applies arg1 != nil && arg1.Timeout == -1
+//@ func (*Driver).EditConfig [C05]
+//@   at call! sendRPC#1 assert #sent-with-the-default-operation-options-so-the-connection-wide-timeout-applies arg1 != nil && arg1.Timeout == -1
+//@ func (*Driver).Lock [C05]
+//@   at call! sendRPC#1 assert #sent-with-the-default-operation-options-so-the-connection-wide-timeout-applies arg1 != nil && arg1.Timeout == -1
+//@ func (*Driver).Unlock [C05]
+//@   at call! sendRPC#1 assert #sent-with-the-default-operation-options-so-the-connection-wide-timeout-applies arg1 != nil && arg1.Timeout == -1
+//@ func (*Driver).Validate [C05]
+//@   at call! sendRPC#1 assert #sent-with-the-default-operation-options-so-the-connection-wide-timeout-applies arg1 != nil && arg1.Timeout == -1
+//@ func (*Driver).EstablishPeriodicSubscription [C05]
+//@   at call! sendRPC#1 assert #sent-with-the-default-operation-options-so-the-connection-wide-timeout-applies arg1 != nil && arg1.Timeout == -1
+//@ func (*Driver).Commit [C05]
+//@   at call! sendRPC#1 assert #sent-with-options-built-from-the-callers-options arg1 != nil && isnew(arg1) && optlog == old(optlog) ++ applied(opts, box("*netconf.OperationOptions", arg1), len(opts)) && (len(opts) == 0 ==> arg1.Timeout == -1)
+//@ func (*Driver).Get [C05]
+//@   at call! sendRPC#1 assert #sent-with-options-built-from-the-callers-options arg1 != nil && isnew(arg1) && optlog == old(optlog) ++ applied(opts, box("*netconf.OperationOptions", arg1), len(opts)) && (len(opts) == 0 ==> arg1.Timeout == -1)
+//@ func (*Driver).GetConfig [C05]
+//@   at call! sendRPC#1 assert #sent-with-options-built-from-the-callers-options arg1 != nil && isnew(arg1) && optlog == old(optlog) ++ applied(opts, box("*netconf.OperationOptions", arg1), len(opts)) && (len(opts) == 0 ==> arg1.Timeout == -1)
+//@ func (*Driver).RPC [C05]
+//@   at call! sendRPC#1 assert #sent-with-options-built-from-the-callers-options arg1 != nil && isnew(arg1) && optlog == old(optlog) ++ applied(opts, box("*netconf.OperationOptions", arg1), len(opts)) && (len(opts) == 0 ==> arg1.Timeout == -1)
